@@ -217,7 +217,8 @@ pub struct ScB {
     pub sched_seed: u64,
     pub list_mode: u8,
     pub max_page: usize,
-    /// 0: dice never trigger cleanup and never ask for snapshots; 1: seeded dice
+    /// 0: dice never trigger cleanup and never ask for snapshots; 1: seeded dice; 2: seeded dice
+    /// loaded towards the cleanup threshold
     pub dice: u8,
     pub faults: Vec<(usize, usize, u32, Decision)>,
     /// every version id this run will hand out must be unpredictable to nobody: ids come from
@@ -485,10 +486,23 @@ pub fn run_b(scv: &Value, want_log: bool) -> RunResult {
         *w.borrow_mut() = Some(OsWorld { objects: objects.clone(), events: vec![], seq: 0, rng: Rng::new(mix(sc.seed, "os", 0)), now_secs: start, list_mode: sc.list_mode, max_page: sc.max_page, mid_action: vec![false; n] })
     });
     // dice
+    let low_draws = Arc::new(std::sync::atomic::AtomicU64::new(0));
     {
         let mut drng = Rng::new(mix(sc.seed, "dice", 0));
         let dice = sc.dice;
-        taskchampion::server::verif::set_randint_source(Some(Box::new(move || if dice == 0 { 255 } else { (drng.next_u64() % 256) as u8 })));
+        let low = low_draws.clone();
+        taskchampion::server::verif::set_randint_source(Some(Box::new(move || {
+            let v = match dice {
+                0 => 255,
+                // loaded dice: a third of the draws fall below the cleanup threshold
+                2 if drng.below(3) == 0 => drng.below(13) as u8,
+                _ => (drng.next_u64() % 256) as u8,
+            };
+            if v < 13 {
+                low.fetch_add(1, std::sync::atomic::Ordering::Relaxed);
+            }
+            v
+        })));
     }
     let w = Rc::new(RefCell::new(WorldB { sc: sc.clone(), calls: vec![], violations: vec![], probes: BTreeMap::new(), log: vec![], want_log, pc: vec![0; n], known_latest: vec![Uuid::nil(); n], known: vec![vec![]; n], cleanup_snaps: vec![BTreeSet::new(); n], cleanup_ok: vec![false; n] }));
     let mut nodes: Vec<Option<NodeFut>> = (0..n).map(|i| Some(node_b(i, w.clone()))).collect();
@@ -611,6 +625,12 @@ pub fn run_b(scv: &Value, want_log: bool) -> RunResult {
             // deletions by add_version of its own rejected upload do not count as cleanup
             true
         });
+        if sc.dice != 0 {
+            wb.probe("dice.seeded");
+            if low_draws.load(std::sync::atomic::Ordering::Relaxed) > 0 {
+                wb.probe("dice.draw_below_cleanup_threshold");
+            }
+        }
         let calls = wb.calls.clone();
         // (1) at most one accepted child per parent; (2) accepted versions are on the chain
         let mut child_of: BTreeMap<Uuid, Uuid> = BTreeMap::new();
@@ -885,7 +905,7 @@ pub fn gen_c09(seed: u64, i: u64, _thorough: bool) -> Value {
             faults.push((rng.usize_below(nodes), rng.usize_below(8), 1 + rng.below(12) as u32, *rng.pick(&[Decision::FailBefore, Decision::FailAfter, Decision::Crash])));
         }
     }
-    serde_json::to_value(ScB { check: "C09".into(), seed: s, nodes, scripts, sched_seed: rng.next_u64(), list_mode: rng.below(2) as u8, max_page: *rng.pick(&[1usize, 2, 3, 1000]), dice: 0, faults, atomic: false, stall: rng.chance(1, 3) }).unwrap()
+    serde_json::to_value(ScB { check: "C09".into(), seed: s, nodes, scripts, sched_seed: rng.next_u64(), list_mode: rng.below(2) as u8, max_page: *rng.pick(&[1usize, 2, 3, 1000]), dice: if rng.chance(1, 4) { 1 + rng.below(2) as u8 } else { 0 }, faults, atomic: false, stall: rng.chance(1, 3) }).unwrap()
 }
 
 pub fn gen_c10(seed: u64, i: u64, _thorough: bool) -> Value {
@@ -928,7 +948,7 @@ pub fn gen_c10(seed: u64, i: u64, _thorough: bool) -> Value {
             }
         }
     }
-    serde_json::to_value(ScB { check: "C10".into(), seed: s, nodes, scripts, sched_seed: rng.next_u64(), list_mode: rng.below(2) as u8, max_page: *rng.pick(&[1usize, 2, 3, 1000]), dice: rng.below(2) as u8, faults, atomic: rng.chance(1, 4), stall: rng.chance(1, 2) }).unwrap()
+    serde_json::to_value(ScB { check: "C10".into(), seed: s, nodes, scripts, sched_seed: rng.next_u64(), list_mode: rng.below(2) as u8, max_page: *rng.pick(&[1usize, 2, 3, 1000]), dice: rng.below(3) as u8, faults, atomic: rng.chance(1, 4), stall: rng.chance(1, 2) }).unwrap()
 }
 
 pub fn shrink_b(scv: &Value) -> Vec<Value> {
@@ -1017,7 +1037,7 @@ pub fn checks() -> Vec<CheckDef> {
             shrink: shrink_b,
             real: REAL_B,
             stub: STUB_B,
-            assumptions: &["the object store is linearizable per request (as S3 and GCS are today)", "cleanup never runs in this check (dice fixed); it is C10's subject"],
+            assumptions: &["the object store is linearizable per request (as S3 and GCS are today)", "no explicit cleanup and no passage of time in this check (C10's subject); in a quarter of the runs the server's own dice start the cleanup that follows an accepted version, which - every object being young - may only remove leftovers and superseded snapshots, so every oracle of this check stays in force"],
         },
         CheckDef {
             id: "C10",
